@@ -308,7 +308,7 @@ func ruleHandlersMove(c *Ctx, rule string) {
 			handlers = append(handlers, sc)
 		}
 	})
-	r.Floor(rule, "instruction handlers", len(handlers), 16)
+	r.Floor(rule, "instruction handlers", len(handlers), 10)
 	for _, h := range handlers {
 		ob := r.Ob(rule, fnName(h)+" moves the state it returns on every path", c.pos(h.Pos()))
 		var copyVal ssa.Value
@@ -656,7 +656,7 @@ func ruleStackAPI(c *Ctx, rule string, trusted map[string]string) {
 			}
 		})
 	}
-	r.Floor(rule, "dereferenced results of Peek/Pop/Index", n, 5)
+	r.Floor(rule, "dereferenced results of Peek/Pop/Index", n, 3)
 }
 
 // emptinessChecked: the use is dominated by the non-empty edge of `recv.IsEmpty()` or `recv.Size() == 0` (same receiver expression).
@@ -710,8 +710,48 @@ func ruleReaderLifetime(c *Ctx, rule string) {
 			ctors[f] = true
 		}
 	}
+	// a function that returns the reader it constructed hands ownership to its caller: it is itself a constructor
+	for changed := true; changed; {
+		changed = false
+		for _, fn := range c.SrcFuncs("engine") {
+			if ctors[fn] {
+				continue
+			}
+			instrsOf(fn, func(in ssa.Instruction) {
+				ret, ok := in.(*ssa.Return)
+				if !ok || len(ret.Results) != 1 {
+					return
+				}
+				var fromCtor func(v ssa.Value, d int) bool
+				fromCtor = func(v ssa.Value, d int) bool {
+					if d > 4 {
+						return false
+					}
+					switch x := v.(type) {
+					case *ssa.Call:
+						return ctors[x.Call.StaticCallee()]
+					case *ssa.Phi:
+						for _, e := range x.Edges {
+							if !fromCtor(e, d+1) {
+								return false
+							}
+						}
+						return len(x.Edges) > 0
+					}
+					return false
+				}
+				if fromCtor(ret.Results[0], 0) && !ctors[fn] {
+					ctors[fn] = true
+					changed = true
+				}
+			})
+		}
+	}
 	n := 0
 	for _, fn := range c.SrcFuncs("engine") {
+		if ctors[fn] {
+			continue
+		}
 		pd := NewPostDom(fn)
 		k := 0
 		// values that may hold a reader created here: constructor calls and phis of them
@@ -801,7 +841,7 @@ func ruleReaderLifetime(c *Ctx, rule string) {
 			}
 		})
 	}
-	r.Floor(rule, "reader constructions in package engine", n, 3)
+	r.Floor(rule, "reader constructions in package engine", n, 2)
 }
 
 // ruleMonotoneTypes implements C09.R3: the checker's environment is one map per definition (flow-insensitive); an unconditional
@@ -859,5 +899,153 @@ func ruleMonotoneTypes(c *Ctx, rule string) {
 		ob.OKnt(fmt.Sprintf("%d update(s) of the environment, each conditional on what it already says about the same variable", len(updates)))
 	} else {
 		ob.Bad("`set` overwrites the recorded type of a variable unconditionally (" + strings.Join(bad, ", ") + ") although the checker is flow-insensitive: after `set x to 'a' if c then set x to true end` the checker believes x is a boolean, accepts `x and true`, and the evaluator panics with SHOULDN'T GET HERE when the branch was not taken")
+	}
+}
+
+// ruleLoopProtocol (C01.R5): typestate of the loop handler. Along every path through matchStartLoop track (a) whether the loop's
+// record is on the loop stack (INIT/INC/PUSH put it there, POP removes it) and (b) where the program counter points (the loop
+// body: NEXT or JUMP(GETPC()+1); the exit: JUMP(ExitLoop+1)). Every state that is saved by CHECKPOINT or returned must satisfy
+// "continues in the body <=> carries the loop record": a state that re-enters the body without its record restarts the count, a
+// state that leaves the loop with the record corrupts the enclosing loop.
+func ruleLoopProtocol(c *Ctx, rule string) {
+	r := c.R
+	fn := c.Fn("engine", "matchStartLoop")
+	if fn == nil {
+		r.Ob(rule, "anchor engine.matchStartLoop", "").Und("not found")
+		return
+	}
+	type st struct{ onStack, target int } // 0 unknown, 1 yes/body, 2 no/exit
+	in := map[*ssa.BasicBlock]st{}
+	out := map[*ssa.BasicBlock]st{}
+	visited := map[*ssa.BasicBlock]bool{}
+	join := func(a, b st) st {
+		res := a
+		if a.onStack != b.onStack {
+			res.onStack = 0
+		}
+		if a.target != b.target {
+			res.target = 0
+		}
+		return res
+	}
+	var problems []string
+	nchecks := 0
+	transfer := func(b *ssa.BasicBlock, s st, report bool) st {
+		check := func(what string, pos ssa.Instruction) {
+			if !report || s.onStack == 0 || s.target == 0 {
+				return
+			}
+			nchecks++
+			if s.target == 1 && s.onStack == 2 {
+				problems = append(problems, fmt.Sprintf("%s [%s] continues in the loop body without the loop's record on the loop stack", what, c.pos(pos.Pos())))
+			}
+			if s.target == 2 && s.onStack == 1 {
+				problems = append(problems, fmt.Sprintf("%s [%s] leaves the loop with the loop's record still on the loop stack", what, c.pos(pos.Pos())))
+			}
+		}
+		for _, x := range b.Instrs {
+			if ret, ok := x.(*ssa.Return); ok {
+				check("the returned state", ret)
+				continue
+			}
+			sc := staticCallee(x)
+			if sc == nil || sc.Signature.Recv() == nil {
+				continue
+			}
+			switch sc.Name() {
+			case "INITLOOPSTACK", "INCLOOPSTACK", "PUSHLOOPSTACK":
+				s.onStack = 1
+			case "POPLOOPSTACK":
+				s.onStack = 2
+			case "NEXT":
+				s.target = 1
+			case "JUMP":
+				args := x.(ssa.CallInstruction).Common().Args
+				a := exprStr(args[len(args)-1])
+				switch {
+				case strings.Contains(a, ".ExitLoop"):
+					s.target = 2
+				case strings.Contains(a, "GETPC()"):
+					s.target = 1
+				default:
+					s.target = 0
+				}
+			case "CHECKPOINT":
+				check("the state saved by CHECKPOINT", x)
+			case "BACKTRACK", "FAIL":
+				s = st{}
+			}
+		}
+		return s
+	}
+	work := []*ssa.BasicBlock{fn.Blocks[0]}
+	for len(work) > 0 {
+		b := work[0]
+		work = work[1:]
+		s := in[b]
+		o := transfer(b, s, false)
+		if visited[b] && o == out[b] {
+			continue
+		}
+		visited[b] = true
+		out[b] = o
+		for _, succ := range b.Succs {
+			ns := o
+			if visited[succ] || in[succ] != (st{}) {
+				ns = join(in[succ], o)
+			}
+			if ns != in[succ] || !visited[succ] {
+				in[succ] = ns
+				work = append(work, succ)
+			}
+		}
+	}
+	hasCalls := func(b *ssa.BasicBlock) bool {
+		for _, x := range b.Instrs {
+			if sc := staticCallee(x); sc != nil && sc.Signature.Recv() != nil {
+				return true
+			}
+		}
+		return false
+	}
+	for _, b := range fn.Blocks {
+		if !visited[b] {
+			continue
+		}
+		transfer(b, in[b], true)
+		// a return block that only merges the branches: classify the state each branch delivers to it
+		if ret, ok := b.Instrs[len(b.Instrs)-1].(*ssa.Return); ok && !hasCalls(b) && len(b.Preds) > 1 {
+			for _, p := range b.Preds {
+				if !visited[p] {
+					continue
+				}
+				s := out[p]
+				if s.onStack == 0 || s.target == 0 {
+					continue
+				}
+				nchecks++
+				var at ssa.Instruction = ret
+				for _, x := range p.Instrs {
+					if x.Pos().IsValid() {
+						at = x
+					}
+				}
+				if s.target == 1 && s.onStack == 2 {
+					problems = append(problems, fmt.Sprintf("the state returned after [%s] continues in the loop body without the loop's record on the loop stack", c.pos(at.Pos())))
+				}
+				if s.target == 2 && s.onStack == 1 {
+					problems = append(problems, fmt.Sprintf("the state returned after [%s] leaves the loop with the loop's record still on the loop stack", c.pos(at.Pos())))
+				}
+			}
+		}
+	}
+	ob := r.Ob(rule, "matchStartLoop: a state continues in the loop body exactly when it carries the loop's record", c.pos(fn.Pos()))
+	switch {
+	case len(problems) > 0:
+		ob.Bad(strings.Join(uniq(problems), "; ") + " — backtracking into such a state restarts the iteration count (the loop's maximum is ignored) or corrupts the enclosing loop")
+	case nchecks < 3:
+		ob.Und(fmt.Sprintf("only %d checkpoint/return states could be classified; the loop handler was restructured", nchecks))
+	default:
+		ob.OKnt(fmt.Sprintf("%d saved or returned states classified: body-states carry the record, exit-states do not", nchecks))
 	}
 }
